@@ -57,8 +57,13 @@ def rand_pats(rng, kind, nmax=4):
         s = rng.choice(pool)
         if kind == 'x':
             pats.append({'x': s})
-        elif rng.random() < 0.12:
-            pats.append({'re': s, 'c': 16})      # pre-compiled with DOTALL
+        elif rng.random() < 0.15:
+            # pre-compiled, with flags of its own (DOTALL, none, IGNORECASE, both) - and, for ASCII sources, sometimes
+            # compiled in the other string type (a str regex for a bytes-mode object and the other way round)
+            e = {'re': s, 'c': rng.choice([16, 16, 0, 2, 18])}
+            if rng.random() < 0.5 and all(ord(ch) < 128 for ch in s):
+                e['o'] = True
+            pats.append(e)
         else:
             pats.append({'re': s})
     if rng.random() < 0.15 and len(pats) > 1:
